@@ -433,7 +433,7 @@ def selftest():
 def subchecks(tier, seed):
     quick = tier == "quick"
     return [
-        SubCheck("change-of-variables", body_cov, strategy=cov_strategy(41 if quick else 81), examples=8000 if quick else 300000, shards=16 if quick else 32),
-        SubCheck("exactness-transport", body_exact, strategy=exact_strategy(60 if quick else 120), examples=2500 if quick else 40000, shards=16),
+        SubCheck("change-of-variables", body_cov, strategy=cov_strategy(41 if quick else 81), examples=8000 if quick else 200000, shards=16 if quick else 32),
+        SubCheck("exactness-transport", body_exact, strategy=exact_strategy(60 if quick else 120), examples=2500 if quick else 30000, shards=16),
         SubCheck("pinned", body_cov, cases=pinned_cov(), shards=8),
     ]
